@@ -58,7 +58,7 @@ theorem cgd_post (cfg : MinCfg α) (f : Array α → α) (df : Option (Array α 
     simp only [this, if_true]
     exact Or.inr ⟨_, _, _, rfl, Or.inr (Or.inr (Or.inl ⟨rfl, rfl⟩))⟩
 
-/-- the only source of `.hang`: a `brent()` line search that exhausts `brentFuel` (100000 passes) -/
+/-- the only source of `.hang`: a `brent()` line search that exhausts `brentFuel` (4·10⁸ passes) -/
 theorem cgLoop_hang (cfg : MinCfg α) (f : Array α → α) (df : Option (Array α → Array α)) :
     ∀ (k : Nat) (s : CGState α) (fx0 : α), (cgLoop cfg f df k s fx0).1 = .hang →
       ∃ (fline : α → α) (a b : α), brentCG cfg fline a b = none := by
